@@ -608,6 +608,11 @@ def h_text_roundtrip(n: int, l0: int, l1: int, l2: int, k0: int, k1: int, k2: in
         t += C.ColorFmt(col, **kw)(txt)
         st = tuple(sorted(_expected_state(dict(specs[k])).items()))
         want.extend((c, st) for c in txt)
+        _ = str(t), format(t, "")          # rendered between the in-place appends: a later rendering must show the later text
+        if i == len(ls) - 1 and l:
+            # one more piece in the color of the last chunk (it is merged into that chunk), appended after a rendering
+            t += C.ColorFmt(col, **kw)("Z")
+            want.append(("Z", st))
     out = str(t)
     try:
         shown, final = sgr_concrete(out)
